@@ -14,6 +14,7 @@ from collections.abc import Hashable, Iterable, Sequence
 from contextlib import suppress
 from dataclasses import dataclass
 from functools import cached_property
+from itertools import chain
 from typing import Any, cast
 
 import numpy
@@ -1276,11 +1277,29 @@ class UGrid(DimensionConvention[UGridKind, UGridIndex]):
                 new_edge_indexes, new_node_indexes,
                 primary_dimension=topology.edge_dimension, fill_value=new_fill_value))
 
+        dimension_masks: dict[Hashable, numpy.ndarray] = {
+            topology.node_dimension: ~numpy.ma.getmask(new_node_indexes),
+            topology.face_dimension: ~numpy.ma.getmask(new_face_indexes),
+        }
+        if has_edges:
+            dimension_masks[topology.edge_dimension] = ~numpy.ma.getmask(new_edge_indexes)
+        mesh_dimensions = set(dimension_masks.keys())
+
+        # Coordinates defined on a mesh dimension need to be sliced
+        # just like the data variables are.
+        mesh_coordinates = {
+            name: coordinate for name, coordinate in dataset.coords.items()
+            if not set(coordinate.dims).isdisjoint(mesh_dimensions)
+        }
+
         # Save all the topology variables to one combined dataset
         topology_path = work_path / (str(topology.mesh_variable.name) + ".nc")
         topology_dataset = xarray.Dataset(
             data_vars={variable.name: variable for variable in topology_variables},
-            coords=dataset.coords,
+            coords={
+                name: coordinate for name, coordinate in dataset.coords.items()
+                if name not in mesh_coordinates
+            },
         )
         topology_dataset.to_netcdf(topology_path)
         mfdataset_paths.append(topology_path)
@@ -1290,15 +1309,7 @@ class UGrid(DimensionConvention[UGridKind, UGridIndex]):
         del topology_variables
 
         logger.debug("Slicing data variables...")
-        dimension_masks: dict[Hashable, numpy.ndarray] = {
-            topology.node_dimension: ~numpy.ma.getmask(new_node_indexes),
-            topology.face_dimension: ~numpy.ma.getmask(new_face_indexes),
-        }
-        if has_edges:
-            dimension_masks[topology.edge_dimension] = ~numpy.ma.getmask(new_edge_indexes)
-        mesh_dimensions = set(dimension_masks.keys())
-
-        for name, data_array in dataset.data_vars.items():
+        for name, data_array in chain(dataset.data_vars.items(), mesh_coordinates.items()):
             data_array_path = work_path / (str(name) + '.nc')
             if name in topology_variable_names:
                 logger.debug("Skipping %r as it is a topology variable", name)
